@@ -31,7 +31,7 @@ def run(ctx):
     efreelist.run(ctx, F)
     edbg.run(ctx, F)
     ctx.explain("E-PERM.blocked: the position-blocking protocol of the concurrent bubble sort (workers restructure adjacent "
-                "levels in parallel): symbolic execution of every path through the swap loop keeps 'a worker at i holds exactly "
+                "levels in parallel): a typestate analysis along every path through the swap loop shows 'a worker at i holds exactly "
                 "{i, i+1}'.")
     esort.check_blocked(ctx, F)
     ctx.explain("E-EVENT (gc protocol): a collection may run while other threads operate under the shared manager lock; "
